@@ -18,6 +18,8 @@ VALUES = {
     "ampersand": ["&", "x &", "a&", "&&", "a && vp_b x"],
     "dup": ["2>&1", "1>&2", ">&2"],
     "list-comment": [";x", "a;vp_b x", "#c", "a #c", "; vp_b x"],
+    # text that reads as a command substitution: nothing in it may run
+    "substitution-syntax": ["$(vp_b x)", "a$(vp_b x)b", "`vp_b x`", "$(vp_b x) > zz"],
     # several lines, one of them with an operator
     "multi-line": ["l1\n>zz", "step 1\ncopy src -> dst", "a\n| vp_b x", "x\n<f"],
 }
@@ -268,7 +270,7 @@ def run(tier, seed):
     common.build_helpers()
     cicada = common.build_cicada("debug")
     rep = Report("C13", tier, seed)
-    rep.rule = ("every value of 6 operator classes (> a>b >>zz | a|b & 'x &' && <f <<< 2>&1 ;x #c ...) x delivery "
+    rep.rule = ("every value of 7 classes (> a>b >>zz | a|b & 'x &' && <f <<< 2>&1 ;x #c $(cmd) `cmd` ...) x delivery "
                 "{$V exported, ${V}, $V assigned in the line, $(cmd), `cmd` inside a word and as a whole word, $V inside a substitution (whole word, with text around it, next to a second substitution, in backquotes) and a substitution inside a substitution, * match of a file with that name, * in a directory position matching a directory with that name} x "
                 "{unquoted, double-quoted} x argument position {first, middle, last} x 7 neighbouring words (plain, quoted, "
                 "backslash-tagged, empty): enumerated completely; every combination again (plain neighbour) with a genuine "
